@@ -259,11 +259,13 @@ PROPS["C19"] = {
     "technique": "property testing against reference prefix arithmetic (net/netip) for the ECS policy, plus audience-model history testing on the real default chain: a recording upstream shows exactly which options leave sdns and stamps answers so every cached reply can be attributed to the audience it was fetched for",
     "level_text": ("Unit 'policy': generated policies (ceilings, floors, networks, invalid values), client addresses and client-sent subnet options (all families, masks 0-128 and beyond, host bits set) are run through internal/ecs; the forwarded option must equal the net/netip reference (client-stated or transport-derived source, truncated to the ceiling, host bits zeroed) or be absent, and the stored scope must equal min(authority scope, source bits, floor) with family caps. "
                    "Unit 'audience': histories of 2-10 queries and sleeps on the real default chain under a virtual clock, over generated policies (enabled/disabled, invalid CIDR lists, ceilings, floors, scoped-TTL limit, prefetch threshold), clients inside and outside the permitted networks, hand-encoded client ECS options (malformed ones included) next to cookie/NSID/padding/keepalive/local options, wire-born and decoded ingress. "
-                   "The upstream stub records every option that reaches it and stamps its answer with the call index; the oracle requires (1) no client-supplied option other than ECS upstream, no ECS when forwarding is not permitted, and the reference subnet when it is, (2) no ECS in any client reply, (3) a cached answer that was fetched for a scoped audience is served only to clients whose forwarded subnet lies inside that scope, only within the scoped TTL limit, and never together with background upstream work. Exploration."),
+                   "The upstream stub records every option that reaches it and stamps its answer with the call index; the oracle requires (1) no client-supplied option other than ECS upstream, no ECS when forwarding is not permitted, and the reference subnet when it is, (2) no ECS in any client reply, (3) a cached answer that was fetched for a scoped audience is served only to clients whose forwarded subnet lies inside that scope, only within the scoped TTL limit, and never together with background upstream work. Unit 'geo' asks the audience question of the real iterative resolver: geo.test. is served by an authority that tailors www.geo.test./A to the client subnet it is shown (the address spells the subnet) and declares a generated scope (0, /16, /24, /32; /48-/64 for IPv6); clients from three networks, with and without a client-subnet option, ask for the name directly and through an in-zone and a cross-zone alias, in generated order with sleeps; whoever receives a tailored address must have sent a subnet - or, having sent none, have an address - inside the network it was tailored for, within the declared scope, and no reply carries a client-subnet option. Exploration."),
     "level_note": "Trusted: net/netip prefix arithmetic and the reference reading of the policy (docs in internal/ecs, config comments). The authority's scope is scripted per name; The 'no shared denial state for ECS queries' clause is decided by unit 'denial-state' (the resolver-world lifetime / provenance test): every NSEC/NSEC3 an authority sends is logged with the client question being resolved, and a synthesised denial may not rest on a record that was only ever fetched for questions carrying a client subnet option (valid, or one of the shapes the policy refuses: IPv4-mapped, over-long, host bits set, family 0).",
     "rule": ("evaluations = policy cases / histories. Non-trivial = forwarding was permitted for at least one step or a scoped entry was hit from cache; distinct = hash(policy, step shapes)."),
     "units": {
         "denial-state": {"pkg": "./server", "run": "^TestVerifC04World$", "tiers": {"quick": T(1200, 8, timeout=900), "thorough": T(40000, 12, timeout=3400)}},
+        "geo": {"pkg": "./server", "run": "^TestVerifC19Geo$", "tiers": {"quick": T(400, 8, timeout=600), "thorough": T(20000, 12, timeout=3400)},
+                "floors": {"C19.geo": {"tailored-answer": 0.3, "tailored-answer-from-cache": 0.05, "global-answer": 0.2}}},
         "policy": {"pkg": "./internal/ecs", "run": "^TestVerifC19Policy$",
                    "tiers": {"quick": T(30000, 2, timeout=300), "thorough": T(800000, 4, timeout=3000)}},
         "audience": {"pkg": "./server", "run": "^TestVerifC19Audience$",
